@@ -79,6 +79,51 @@ def simulate (L : Int) (tc : Nat) : Nat → Nat → List Nat → Nat × Option N
     let r := ensure L tc len u
     if r.2 then simulate L tc r.1 (i + 1) us else (r.1, some i)
 
+/-! ## (c) the other two stacks: `runstack` (grouping stack) and `runcrawl` (crawl stack)
+
+Neither is limited.  Both grow by `doubleIntSlice` only: the grouping stack ONCE per `ensureStorage` call (an `if`, not
+a loop) when fewer than `4·runtrackcount` slots are free — and in `ensureStack(plus)` for the exported `StackPush…` of
+the code-gen API —, the crawl stack at every `crawl(i)` that finds it full.  As for `runtrack` only lengths are
+modelled: `Runstackpos = len − used`, `runcrawlpos = len − used`.  The constants are tied to runner.go by
+`Props.C13.stack_storage_constants` (regenerated `stackAllocFactor` … `crawlChecksEveryPush`). -/
+
+/-- `initMatch`: `stacksize := r.runtrackcount * 8; if stacksize < 32 { stacksize = 32 }` (the limit does not apply) -/
+def stackAlloc0 (tc : Nat) : Nat :=
+  let stacksize := tc * 8
+  if stacksize < 32 then 32 else stacksize
+
+/-- `initMatch`: `r.runcrawl = make([]int, 32)` -/
+def crawlAlloc0 : Nat := 32
+
+/-- `doubleIntSlice`: `newS := make([]int, oldLen*2); copy(newS[oldLen:], *s); *pos += oldLen` — the new length; the
+    used part `len − pos` is unchanged, the free part grows by `oldLen` -/
+def doubleLen (oldLen : Nat) : Nat := oldLen * 2
+
+/-- `ensureStorage`, first statement: `if r.Runstackpos < r.runtrackcount*4 { doubleIntSlice(&r.runstack, …) }` with
+    `Runstackpos = len − used`: the new `len(runstack)` -/
+def stackEnsure (tc len used : Nat) : Nat :=
+  if len - used < tc * 4 then doubleLen len else len
+
+/-- `ensureStack(plus)`: `if r.Runstackpos-plus < r.runtrackcount*4 { doubleIntSlice(…) }` (an `int` subtraction:
+    `len − used − plus` may be negative) -/
+def stackEnsurePlus (tc len used plus : Nat) : Nat :=
+  if (len : Int) - used - plus < tc * 4 then doubleLen len else len
+
+/-- `crawl(i)`: `if r.runcrawlpos == 0 { doubleIntSlice(&r.runcrawl, &r.runcrawlpos) }; r.runcrawlpos--;
+    r.runcrawl[r.runcrawlpos] = i` on (length, used slots).  `none` = the store would be at index −1 (no free slot
+    even after the doubling — only when the slice is empty). -/
+def crawlPush (len used : Nat) : Option (Nat × Nat) :=
+  let len' := if len - used = 0 then doubleLen len else len
+  if len' - used = 0 then none else some (len', used + 1)
+
+/-- `n` consecutive `crawl` calls -/
+def crawlPushN : Nat → Nat → Nat → Option (Nat × Nat)
+  | 0, len, used => some (len, used)
+  | n + 1, len, used =>
+    match crawlPush len used with
+    | none => none
+    | some (len', used') => crawlPushN n len' used'
+
 /-! ## (a) the abstract capacity system -/
 
 /-- logical state: code position and number of used backtracking slots -/
